@@ -230,6 +230,13 @@ func setOperationImpl(f func(s1, s2 cty.ValueSet) cty.ValueSet, allowUnknowns bo
 				return cty.UnknownVal(retType), nil
 			}
 
+			if !arg.Type().Equals(first.Type()) {
+				// The result type still has dynamic placeholders and the
+				// arguments disagree about what is in their place, so the
+				// element type cannot be decided yet.
+				return cty.UnknownVal(retType), nil
+			}
+
 			argSet := arg.AsValueSet()
 			set = f(set, argSet)
 		}
